@@ -22,22 +22,29 @@ def main() -> int:
     harness = importlib.import_module(rec["harness"])
     from hv.core import ExecutionTimeout, Result, _deadline, EXEC_DEADLINE_S, viol
 
-    ch = Chooser(rec["choices"])
-    try:
-        prog = rec["program"]
-        with _deadline(prog.get("deadline_s", EXEC_DEADLINE_S) if isinstance(prog, dict) else EXEC_DEADLINE_S):
-            res = harness.execute(prog, ch)
-    except Exception as exc:  # noqa: BLE001
-        from hv.core import library_exception_result
+    # "repeat": the same execution is run several times in this one process - for violations that
+    # only show once the library carries state over from an earlier use (a module-level table, an
+    # id()-keyed memo hit by a re-used address): the first run with a violation is reported
+    res = None
+    for _run in range(int(rec.get("repeat", 1))):
+        ch = Chooser(rec["choices"])
+        try:
+            prog = rec["program"]
+            with _deadline(prog.get("deadline_s", EXEC_DEADLINE_S) if isinstance(prog, dict) else EXEC_DEADLINE_S):
+                res = harness.execute(prog, ch)
+        except Exception as exc:  # noqa: BLE001
+            from hv.core import library_exception_result
 
-        res = library_exception_result(exc)
-    except ExecutionTimeout:
-        res = Result(
-            "timeout",
-            True,
-            [viol("termination", "execution-does-not-terminate", f"finishes within {EXEC_DEADLINE_S}s", f"still running after {len(ch.choices)} choice points")],
-            {"timeout": True},
-        )
+            res = library_exception_result(exc)
+        except ExecutionTimeout:
+            res = Result(
+                "timeout",
+                True,
+                [viol("termination", "execution-does-not-terminate", f"finishes within {EXEC_DEADLINE_S}s", f"still running after {len(ch.choices)} choice points")],
+                {"timeout": True},
+            )
+        if res.violations:
+            break
     sigs = sorted(v["signature"] for v in res.violations)
     if "--sigs" in sys.argv[2:]:
         print(json.dumps([{k: v[k] for k in ("clause", "signature", "expected", "observed")} for v in res.violations], default=repr))
